@@ -113,10 +113,11 @@ class LogicalRecordBytes:
         start_pos = 0  # start from the beginning of the logical record bytes
         remaining_size = self._size  # all bytes will be processed; self._size is assumed to always be >=12
 
-        if max_n_bytes < 24:
+        if max_n_bytes < 12:
             # minimal length of a logical record segment is 16 (of which 4 bytes are reserved for header),
-            # so for the splitting to work correctly max_n_bytes must be >= 24, which is twice the min segment body size
-            raise ValueError(f"Max size of a logical record segment body cannot be less than 24 (got {max_n_bytes})")
+            # so a segment body must be allowed to hold at least 12 bytes; this is the case for every valid
+            # visible record length (>= 20); segments which end up shorter than that are padded (see make_segment)
+            raise ValueError(f"Max size of a logical record segment body cannot be less than 12 (got {max_n_bytes})")
 
         while remaining_size > 0:
             n_bytes = min(remaining_size, max_n_bytes)  # size of the current (to be created) segment body
